@@ -236,6 +236,20 @@ theorem read_request_changes_nothing (env : Env) (r : Req) (s : State)
       · rfl
       · rfl
 
+/-- **what a GET answers does not depend on other reads**, before it or overlapping with it:
+    any number of GET (or 405-answered) requests to any paths leave the state alone, so a
+    read served after them — or, in an interleaving, around them — is answered exactly as it
+    would have been alone: the value at ITS path, with the ETag of that value. (The `gg` op
+    holds the real handler to this with GETs that overlap inside one another.) -/
+theorem get_answer_is_independent_of_other_reads (env : Env) (r : Req) :
+    ∀ (others : List Req) (s : State), (∀ o ∈ others, o.method = .get ∨ o.method = .other) →
+      serve env r (serial env others s) = serve env r s
+  | [], _, _ => rfl
+  | o :: rest, s, h => by
+    simp only [serial, List.foldl_cons]
+    rw [read_request_changes_nothing env o s (h o (by simp))]
+    exact get_answer_is_independent_of_other_reads env r rest s (fun x hx => h x (by simp [hx]))
+
 /-! ### atomicity: the document, the index and the running apps always agree -/
 
 /-- **one document.** After any history: the tree GET reads from is the configuration that was
